@@ -135,3 +135,23 @@ func vNondetSteps(n int, alpha string, wildOK bool, idxMax int) ([]vStep, string
 	}
 	return steps, path, hasWild
 }
+
+// refFrontier is refDenote without the final flattening of lists.
+func refFrontier(steps []vStep, m map[string]interface{}) []interface{} {
+	F := []interface{}{interface{}(m)}
+	for _, s := range steps {
+		var N []interface{}
+		for _, x := range F {
+			switch {
+			case s.idx >= 0:
+				N = append(N, refStepIdx(s.key, s.idx, x)...)
+			case s.wild:
+				N = append(N, refStepWild(x)...)
+			default:
+				N = append(N, refStepKey(s.key, x)...)
+			}
+		}
+		F = N
+	}
+	return F
+}
